@@ -146,6 +146,9 @@ def make_func(rng, name, shape=None):
     # every non-leaf function allocates the 32 bytes of home space its callees may use
     if shape == "large":
         alloc = rng.choice([0x88, 0x1000, 0x7fff8, 0x80000, 0x100010])
+    elif shape == "chained2" and not use_fp and rng.chance(1, 3):
+        # primary allocation just below 512 KiB: together with the cold region's own allocation the frame exceeds it
+        alloc = rng.choice([0x7fff8, 0x7ffc0, 0x7ff88])
     else:
         alloc = 32 + 8 * rng.range(0, 12) + 8 * nsave
     fpoff = 0
@@ -201,6 +204,13 @@ def make_func(rng, name, shape=None):
         for r in reversed(pushes):
             reg.emit(Insn("pop", r), "epilog")
         reg.emit(Insn(term), "epilog")
+    if rng.chance(1, 3):
+        # a long body: offsets beyond 0x100 / 0x200 whose low byte is smaller than the prolog's code offsets
+        for j in range(rng.choice([130, 280])):
+            r0.emit(filler(rng), "body")
+            if j % 24 == 23:
+                r0.emit(call(rng), "body")
+        f.long = True
     body(r0, rng.range(1, 3))
     if shape in ("chained", "chained2"):
         # the hot region jumps to a cold region placed elsewhere; the cold region's info chains to the primary
@@ -359,8 +369,9 @@ def execute(f, k, upto, regs, mem, rng):
         if rk == k:
             return
 
-def make_scenario(rng, prog, base, stack_top, depth):
-    """A call chain root -> ... -> innermost, the innermost stopped at a random instruction boundary."""
+def make_scenario(rng, prog, base, stack_top, depth, inner=None):
+    """A call chain root -> ... -> innermost, the innermost stopped at a random instruction boundary
+    (inner = (function, boundary) forces the innermost frame)."""
     funcs = prog["funcs"]
     callers = [f for f in funcs if not f.leaf]
     regs = [rng.u64() & M64 for _ in range(16)]
@@ -368,7 +379,7 @@ def make_scenario(rng, prog, base, stack_top, depth):
     regs[RSP] = stack_top
     # thread start pushed a null return address
     regs[RSP] -= 8; mem[regs[RSP]] = 0
-    chain_funcs = [rng.choice(callers) for _ in range(depth - 1)] + [rng.choice(funcs)]
+    chain_funcs = [rng.choice(callers) for _ in range(depth - 1)] + [inner[0] if inner else rng.choice(funcs)]
     truth = []            # per frame, innermost last: (ra of this frame, caller regs after return)
     frames = []
     caller_state = None
@@ -394,7 +405,7 @@ def make_scenario(rng, prog, base, stack_top, depth):
                 regs[v] = rng.u64() & M64
         else:
             bs = boundaries(f)
-            k, off, phase, i = rng.choice(bs)
+            k, off, phase, i = inner[1] if inner else rng.choice(bs)
             execute(f, k, i, regs, mem, rng)
             reg = f.regions[k]
             pc = base + reg.begin + off
